@@ -495,8 +495,18 @@ theorem simpleOk_spec {fs : List (FieldInfo × Meth)} (h : simpleOk fs = true) :
     simp only [Bool.and_eq_true, beq_iff_eq, Bool.not_eq_true'] at h
     intro fm hfm
     rcases List.mem_cons.1 hfm with rfl | hmem
-    · exact ⟨h.1.1.1, h.1.1.2, h.1.2⟩
+    · exact ⟨h.1.1.1.1, h.1.1.1.2, h.1.1.2⟩
     · exact ih h.2 fm hmem
+
+theorem simpleOk_noDeps : ∀ {fs : List (FieldInfo × Meth)}, simpleOk fs = true → ∀ f ∈ infosM fs, f.requiredBy = []
+  | [], _, f, hf => by rw [infosM] at hf; cases hf
+  | (g, m) :: fs, h, f, hf => by
+    unfold simpleOk at h
+    simp only [Bool.and_eq_true, beq_iff_eq, Bool.not_eq_true', List.isEmpty_iff] at h
+    rw [infosM] at hf
+    rcases List.mem_cons.1 hf with rfl | hm
+    · exact h.1.2
+    · exact simpleOk_noDeps h.2 f hm
 
 theorem mem_infosM {fs : List (FieldInfo × Meth)} {f : FieldInfo} (h : f ∈ infosM fs) : ∃ fm ∈ fs, fm.1 = f := by
   induction fs with
@@ -564,7 +574,7 @@ theorem simple_vs_obj {ci ctor c fs} (hk : ci.kind ≠ .typedDict) (hc : c.hasDi
     | none =>
       have hkd : (ci.kind != ObjKind.typedDict) = true := by simpa using hk
       simp only [hkd, Bool.and_true, Bool.not_false, Bool.and_false, Bool.false_and,
-        Bool.false_eq_true, if_false, List.isEmpty_nil]
+        Bool.false_eq_true, if_false, List.isEmpty_nil, depMissing_nil (simpleOk_noDeps hs) kvs, addDepMissing, List.foldl_nil]
       -- both sides compute the same error list
       generalize herrs : (if (kvs.length != (runFields false fs kvs).count) = true then
           addUnexpected (unexpectedKeys (aliasesM fs) kvs) (runFields false fs kvs).errs
